@@ -1283,6 +1283,7 @@ impl World {
         };
         let base = json!({"ev":"Rx","t":tnow,"n":n,"id":d.id,"orig":d.orig,"suid":d.from_uid,"rdcid":rdcid,
             "long":d.data.first().is_some_and(|b| b & 0x80 != 0),"damaged":d.damage.is_some(),"src":addr_id(d.src),
+            "ver":if d.data.len() >= 5 { u32::from_be_bytes([d.data[1], d.data[2], d.data[3], d.data[4]]) as i64 } else { -1 },
             "size":size,"cls":d.cls,"first":d.data.first().copied().unwrap_or(0),"pk":pk,
             "exact":d.exact,"ipk":ipk,
             "otypes":d.pkts.iter().map(|p| match p.ty { PType::Retry => "R", PType::VersionNeg => "V", _ => "P" }).collect::<String>()});
